@@ -65,8 +65,8 @@ func validateMemoryAnnotation(hasGpuMemoryAnnotation bool, gpuMemoryFromAnnotati
 	if !hasGpuMemoryAnnotation {
 		return nil
 	}
-	gpuMemory, err := strconv.ParseUint(gpuMemoryFromAnnotation, 10, 64)
-	if err != nil || gpuMemory == 0 {
+	gpuMemory, err := strconv.ParseInt(gpuMemoryFromAnnotation, 10, 64)
+	if err != nil || gpuMemory <= 0 {
 		return fmt.Errorf("gpu-memory annotation value must be a positive integer greater than 0")
 	}
 	return nil
@@ -77,7 +77,7 @@ func validateGpuFractionAnnotation(hasGpuFractionAnnotation bool, gpuFractionFro
 		return nil
 	}
 	gpuFraction, gpuFractionErr := strconv.ParseFloat(gpuFractionFromAnnotation, 64)
-	if gpuFractionErr != nil || gpuFraction <= 0 || gpuFraction >= 1 {
+	if gpuFractionErr != nil || !(gpuFraction > 0 && gpuFraction < 1) {
 		return fmt.Errorf(
 			"gpu-fraction annotation value must be a positive number smaller than 1.0")
 	}
@@ -88,8 +88,8 @@ func validateMultiFractionRequest(hasGpuFractionsCount bool, gpuFractionsCountFr
 	if !hasGpuFractionsCount {
 		return nil
 	}
-	fractionsCount, err := strconv.ParseUint(gpuFractionsCountFromAnnotation, 10, 64)
-	if err != nil || fractionsCount == 0 {
+	fractionsCount, err := strconv.ParseInt(gpuFractionsCountFromAnnotation, 10, 64)
+	if err != nil || fractionsCount <= 0 {
 		return fmt.Errorf("fraction count annotation value must be a positive integer greater than 0")
 	}
 	return nil
